@@ -92,6 +92,9 @@ def translate(repo):
             call = stmt.value
         elif isinstance(stmt, ast.If) and any(is_cmul(s) for s in stmt.body):
             t = stmt.test
+            # further conjuncts (e.g. a dtype test) only make the kernel path rarer: the key bound is the first one
+            if isinstance(t, ast.BoolOp) and isinstance(t.op, ast.And) and isinstance(t.values[0], ast.Compare):
+                t = t.values[0]
             if not (isinstance(t, ast.Compare) and len(t.ops) == 1 and isinstance(t.ops[0], ast.Lt)
                     and isinstance(t.left, ast.Name) and isinstance(t.comparators[0], ast.Constant)
                     and isinstance(t.comparators[0].value, int)):
